@@ -120,13 +120,18 @@ for _fam in ("text", "gfx"):
         make_valid_size_unit(_fam, _mode)
 
 
-def make_auto_rule_unit(fam):
-    @unit("C04", f"common:BaseImage._valid_size[{fam}]/AUTO-rule")
+def make_auto_rule_unit(fam, auto="AUTO"):
+    suffix = "" if auto == "AUTO" else "(as height)"
+
+    @unit(("C04", "C01") if suffix else "C04", f"common:BaseImage._valid_size[{fam}]/AUTO-rule{suffix}")
     def u(ctx, fam=fam):
-        """AUTO equals ORIGINAL when the source (scaled for the pixel ratio) fits the frame's pixel area, FIT otherwise."""
-        runs = {m: run_valid_size(ctx, fam, m) for m in ("AUTO", "ORIGINAL", "FIT")}
+        """AUTO equals ORIGINAL when the source (scaled for the pixel ratio) fits the frame's pixel area, FIT otherwise - whichever of
+        the two arguments carries it (rendered_height passes a dynamic size as the height, rendered_size / rendered_width and the
+        renderer as the width: the advertised height and the rendered lines agree only if both resolve it alike, C01)."""
+        runs = {m: run_valid_size(ctx, fam, m) for m in (auto, "ORIGINAL", "FIT")}
+        runs["AUTO"] = runs[auto]
         eng, outs_a, P, cols, lines, _, _ = runs["AUTO"]
-        eng.label = f"C04/_valid_size[{fam}]/AUTO-rule"
+        eng.label = f"C04/_valid_size[{fam}]/AUTO-rule{suffix}"
         fw = SZ.cols_to_px(fam, cols, P["cw"])
         fh = SZ.lines_to_px(fam, lines, P["ch"])
         from pyvc.values import _ROUND
@@ -143,13 +148,17 @@ def make_auto_rule_unit(fam):
                         continue
                     st = sa.fork()
                     st.pc += so.pc + [when, rax] + runs[other][0].round_axioms
-                    eng.oblige(f"AUTO=={other}", st, Eq(va, vo), kind="post", replay="C04.valid_size", fam=fam, mode="AUTO")
+                    eng.oblige(f"AUTO=={other}", st, Eq(va, vo), kind="post", replay="C04.valid_size", fam=fam, mode=auto)
+                    if suffix:
+                        eng.oblige(f"C01:advertised-height(AUTO-as-height)=height-rendered(AUTO-as-width):both=={other}", st, Eq(va, vo), prop="C01", kind="post",
+                                   replay="C01.dynamic_size", fam=fam, mode=auto)
         return eng.obligations
     return u
 
 
 for _fam in ("text", "gfx"):
     make_auto_rule_unit(_fam)
+    make_auto_rule_unit(_fam, "AUTO(as height)")
 
 
 # ------------------------------------------------------------------------------- conversions (callee contracts)
